@@ -48,12 +48,13 @@ m = re.search(r"(?is)(trigger|manifest)[^\n]*\n(.{0,600})", notes)
 meta["needs_to_manifest"] = notes[:1500]
 out = Path("/verif/seeded") / name
 out.mkdir(parents=True, exist_ok=True)
-for f in ("patch.diff", "demo.py", "notes.md", "demo_kernels.py"):
-    if (src / f).exists() and (src / f).resolve() != (out / f).resolve():
-        shutil.copy(src / f, out / f)
-for d in ("stub", "stubs"):
-    # import stubs a demonstration ships (e.g. a minimal matplotlib)
-    if (src / d).is_dir() and (src / d).resolve() != (out / d).resolve():
-        shutil.copytree(src / d, out / d, dirs_exist_ok=True)
+for f in sorted(src.iterdir()):
+    # the patch, the demonstration and whatever it ships (kernels in real source files, import stubs)
+    if f.name in ("__pycache__", "meta.json") or f.resolve() == (out / f.name).resolve():
+        continue
+    if f.is_dir():
+        shutil.copytree(f, out / f.name, dirs_exist_ok=True, ignore=shutil.ignore_patterns("__pycache__"))
+    else:
+        shutil.copy(f, out / f.name)
 (out / "meta.json").write_text(json.dumps(meta, indent=1) + "\n")
 print(name, "confirmed" if meta["confirmed"] else "NOT CONFIRMED", {c: v["exit"] for c, v in meta["checks"].items()})
